@@ -474,7 +474,9 @@ class MementoFunction(MementoFunctionBase):
         # Otherwise, it needs to be calculated based on code hash and dependencies
         version = self._recompute_version()
 
-        if self._calculated_version != version:
+        if self._calculated_version != version or self._fn_reference is None:
+            # (a clone starts from the version of the function it was cloned from but has no
+            # function reference of its own yet)
             self._calculated_version = version
             self._update_fn_reference()
 
